@@ -972,6 +972,7 @@ pub fn run(t: &[&str]) -> String {
         "c05.look" | "c05.lraw" => section_case(t, true),
         "c05.hdr" | "c05.hraw" => hdr_case(t),
         "c05.uwi" => uwi_case(t),
+        "c05.setloctab" => uwi_case(t),
         "c05.hiter" => hiter_case(t),
         "c05.hist" => hist_case(t),
         "c05.setloc" => setloc_case(t),
